@@ -8,6 +8,7 @@ One theorem per symmetry m = 0, 1, 2 (planar, cylindrical, spherical).  Hypothes
 (`NohIC.Admissible m`), ρ ≠ 0 (the guard of every method) and D ≠ 0 (the code divides by D).
 -/
 import EPV.Lemmas.C16ResDefs
+import EPV.Lemmas.Bridge.EosTac
 
 set_option linter.all false
 set_option maxHeartbeats 1000000
@@ -24,429 +25,318 @@ theorem energyS0_jacobian (s : EOS) (ic : NohIC) (ρ x D : ℝ) (hic : ic.Admiss
     (hs : s.EnergyDerivsAt ρ x) :
     IsJacobian3 (EnergyS0.F s ic) (EnergyS0.J s ic ρ x D) ρ x D := by
   obtain ⟨hu, hr0, hP0, hm⟩ := hic
-  have k0 : ¬ (0 ≤ ic.u_0) := not_le.mpr hu
-  have k1 : ¬ (ic.rho_0 ≤ 0) := not_le.mpr hr0
-  have k2 : ¬ (ic.P_0 < 0) := not_lt.mpr hP0
-  have k3 : True := trivial
   set p := EnergyS0.pres s ic ρ x with hp
   intro i
   fin_cases i <;> (try simp only [Fin.zero_eta, Fin.mk_one, Fin.reduceFinMk])
   · refine ⟨?_, ?_, ?_⟩
     · have hc : HasDerivAt (fun r => ResEnergyAbsS0_res.L4.F0 p r x D) (ResEnergyAbsS0_res.L4.F0_drho p ρ x D) ρ := by
-        apply ResEnergyAbsS0_res.L4.F0_hasDerivAt_rho <;> assumption
+        epv_eos_cert ResEnergyAbsS0_res.L4.F0_hasDerivAt_rho p ρ x D
       have hev : (fun r => EnergyS0.F s ic r x D 0) =ᶠ[nhds ρ] fun r => ResEnergyAbsS0_res.L4.F0 p r x D := by
         filter_upwards [isOpen_ne.mem_nhds hρ] with r hr
-        simp only [EnergyS0.F, hp, epv_c16, epv_tree, epv_cond, epv_leaf, hr, k0, k1, k2, k3, if_true, if_false, lt_self_iff_false, Matrix.of_apply, Matrix.cons_val, Fin.zero_eta, Fin.mk_one, Fin.reduceFinMk, Fin.isValue]
-        try ring
+        simp only [EnergyS0.F, hp] <;> epv_eos_res_eq
       refine (hc.congr_of_eventuallyEq hev).congr_deriv ?_
-      simp only [EnergyS0.J, hp, epv_c16, epv_tree, epv_cond, epv_leaf, epv_deriv, hρ, k0, k1, k2, k3, if_true, if_false, lt_self_iff_false, Matrix.of_apply, Matrix.cons_val, Fin.zero_eta, Fin.mk_one, Fin.reduceFinMk, Fin.isValue]
-      try field_simp
-      try ring
+      simp only [EnergyS0.J, hp] <;> epv_eos_res_unfold <;> epv_eos_field
     · have hc : HasDerivAt (fun r => ResEnergyAbsS0_res.L4.F0 p ρ r D) (ResEnergyAbsS0_res.L4.F0_dpres p ρ x D) x := by
-        apply ResEnergyAbsS0_res.L4.F0_hasDerivAt_pres <;> assumption
+        epv_eos_cert ResEnergyAbsS0_res.L4.F0_hasDerivAt_pres p ρ x D
       have hev : (fun r => EnergyS0.F s ic ρ r D 0) =ᶠ[nhds x] fun r => ResEnergyAbsS0_res.L4.F0 p ρ r D := by
         filter_upwards with r
-        have hr := hρ
-        simp only [EnergyS0.F, hp, epv_c16, epv_tree, epv_cond, epv_leaf, hr, k0, k1, k2, k3, if_true, if_false, lt_self_iff_false, Matrix.of_apply, Matrix.cons_val, Fin.zero_eta, Fin.mk_one, Fin.reduceFinMk, Fin.isValue]
-        try ring
+        simp only [EnergyS0.F, hp] <;> epv_eos_res_eq
       refine (hc.congr_of_eventuallyEq hev).congr_deriv ?_
-      simp only [EnergyS0.J, hp, epv_c16, epv_tree, epv_cond, epv_leaf, epv_deriv, hρ, k0, k1, k2, k3, if_true, if_false, lt_self_iff_false, Matrix.of_apply, Matrix.cons_val, Fin.zero_eta, Fin.mk_one, Fin.reduceFinMk, Fin.isValue]
-      try field_simp
-      try ring
+      simp only [EnergyS0.J, hp] <;> epv_eos_res_unfold <;> epv_eos_field
     · have hc : HasDerivAt (fun r => ResEnergyAbsS0_res.L4.F0 p ρ x r) (ResEnergyAbsS0_res.L4.F0_dD p ρ x D) D := by
-        apply ResEnergyAbsS0_res.L4.F0_hasDerivAt_D <;> assumption
+        epv_eos_cert ResEnergyAbsS0_res.L4.F0_hasDerivAt_D p ρ x D
       have hev : (fun r => EnergyS0.F s ic ρ x r 0) =ᶠ[nhds D] fun r => ResEnergyAbsS0_res.L4.F0 p ρ x r := by
-        filter_upwards with r
-        have hr := hρ
-        simp only [EnergyS0.F, hp, epv_c16, epv_tree, epv_cond, epv_leaf, hr, k0, k1, k2, k3, if_true, if_false, lt_self_iff_false, Matrix.of_apply, Matrix.cons_val, Fin.zero_eta, Fin.mk_one, Fin.reduceFinMk, Fin.isValue]
-        try ring
+        filter_upwards [isOpen_ne.mem_nhds hD] with r hr
+        simp only [EnergyS0.F, hp] <;> epv_eos_res_eq
       refine (hc.congr_of_eventuallyEq hev).congr_deriv ?_
-      simp only [EnergyS0.J, hp, epv_c16, epv_tree, epv_cond, epv_leaf, epv_deriv, hρ, k0, k1, k2, k3, if_true, if_false, lt_self_iff_false, Matrix.of_apply, Matrix.cons_val, Fin.zero_eta, Fin.mk_one, Fin.reduceFinMk, Fin.isValue]
-      try field_simp
-      try ring
+      simp only [EnergyS0.J, hp] <;> epv_eos_res_unfold <;> epv_eos_field
   · refine ⟨?_, ?_, ?_⟩
     · have hc : HasDerivAt (fun r => ResEnergyAbsS0_res.L4.F1 p r x D) (ResEnergyAbsS0_res.L4.F1_drho p ρ x D) ρ := by
-        apply ResEnergyAbsS0_res.L4.F1_hasDerivAt_rho <;> assumption
+        epv_eos_cert ResEnergyAbsS0_res.L4.F1_hasDerivAt_rho p ρ x D
       have hev : (fun r => EnergyS0.F s ic r x D 1) =ᶠ[nhds ρ] fun r => ResEnergyAbsS0_res.L4.F1 p r x D := by
         filter_upwards [isOpen_ne.mem_nhds hρ] with r hr
-        simp only [EnergyS0.F, hp, epv_c16, epv_tree, epv_cond, epv_leaf, hr, k0, k1, k2, k3, if_true, if_false, lt_self_iff_false, Matrix.of_apply, Matrix.cons_val, Fin.zero_eta, Fin.mk_one, Fin.reduceFinMk, Fin.isValue]
-        try ring
+        simp only [EnergyS0.F, hp] <;> epv_eos_res_eq
       refine (hc.congr_of_eventuallyEq hev).congr_deriv ?_
-      simp only [EnergyS0.J, hp, epv_c16, epv_tree, epv_cond, epv_leaf, epv_deriv, hρ, k0, k1, k2, k3, if_true, if_false, lt_self_iff_false, Matrix.of_apply, Matrix.cons_val, Fin.zero_eta, Fin.mk_one, Fin.reduceFinMk, Fin.isValue]
-      try field_simp
-      try ring
+      simp only [EnergyS0.J, hp] <;> epv_eos_res_unfold <;> epv_eos_field
     · have hc : HasDerivAt (fun r => ResEnergyAbsS0_res.L4.F1 p ρ r D) (ResEnergyAbsS0_res.L4.F1_dpres p ρ x D) x := by
-        apply ResEnergyAbsS0_res.L4.F1_hasDerivAt_pres <;> assumption
+        epv_eos_cert ResEnergyAbsS0_res.L4.F1_hasDerivAt_pres p ρ x D
       have hev : (fun r => EnergyS0.F s ic ρ r D 1) =ᶠ[nhds x] fun r => ResEnergyAbsS0_res.L4.F1 p ρ r D := by
         filter_upwards with r
-        have hr := hρ
-        simp only [EnergyS0.F, hp, epv_c16, epv_tree, epv_cond, epv_leaf, hr, k0, k1, k2, k3, if_true, if_false, lt_self_iff_false, Matrix.of_apply, Matrix.cons_val, Fin.zero_eta, Fin.mk_one, Fin.reduceFinMk, Fin.isValue]
-        try ring
+        simp only [EnergyS0.F, hp] <;> epv_eos_res_eq
       refine (hc.congr_of_eventuallyEq hev).congr_deriv ?_
-      simp only [EnergyS0.J, hp, epv_c16, epv_tree, epv_cond, epv_leaf, epv_deriv, hρ, k0, k1, k2, k3, if_true, if_false, lt_self_iff_false, Matrix.of_apply, Matrix.cons_val, Fin.zero_eta, Fin.mk_one, Fin.reduceFinMk, Fin.isValue]
-      try field_simp
-      try ring
+      simp only [EnergyS0.J, hp] <;> epv_eos_res_unfold <;> epv_eos_field
     · have hc : HasDerivAt (fun r => ResEnergyAbsS0_res.L4.F1 p ρ x r) (ResEnergyAbsS0_res.L4.F1_dD p ρ x D) D := by
-        apply ResEnergyAbsS0_res.L4.F1_hasDerivAt_D <;> assumption
+        epv_eos_cert ResEnergyAbsS0_res.L4.F1_hasDerivAt_D p ρ x D
       have hev : (fun r => EnergyS0.F s ic ρ x r 1) =ᶠ[nhds D] fun r => ResEnergyAbsS0_res.L4.F1 p ρ x r := by
-        filter_upwards with r
-        have hr := hρ
-        simp only [EnergyS0.F, hp, epv_c16, epv_tree, epv_cond, epv_leaf, hr, k0, k1, k2, k3, if_true, if_false, lt_self_iff_false, Matrix.of_apply, Matrix.cons_val, Fin.zero_eta, Fin.mk_one, Fin.reduceFinMk, Fin.isValue]
-        try ring
+        filter_upwards [isOpen_ne.mem_nhds hD] with r hr
+        simp only [EnergyS0.F, hp] <;> epv_eos_res_eq
       refine (hc.congr_of_eventuallyEq hev).congr_deriv ?_
-      simp only [EnergyS0.J, hp, epv_c16, epv_tree, epv_cond, epv_leaf, epv_deriv, hρ, k0, k1, k2, k3, if_true, if_false, lt_self_iff_false, Matrix.of_apply, Matrix.cons_val, Fin.zero_eta, Fin.mk_one, Fin.reduceFinMk, Fin.isValue]
-      try field_simp
-      try ring
+      simp only [EnergyS0.J, hp] <;> epv_eos_res_unfold <;> epv_eos_field
   · refine ⟨?_, ?_, ?_⟩
     · have hc : HasDerivAt (fun r => ResEnergyAbsS0_res.L4.F2 p r x D) (ResEnergyAbsS0_res.L4.F2_drho p ρ x D) ρ := by
-        apply ResEnergyAbsS0_res.L4.F2_hasDerivAt_rho <;> assumption
+        epv_eos_cert ResEnergyAbsS0_res.L4.F2_hasDerivAt_rho p ρ x D
       have hev : (fun r => EnergyS0.F s ic r x D 2) =ᶠ[nhds ρ] fun r => (s.e r x - s.e ρ x) + ResEnergyAbsS0_res.L4.F2 p r x D := by
         filter_upwards [isOpen_ne.mem_nhds hρ] with r hr
-        simp only [EnergyS0.F, hp, epv_c16, epv_tree, epv_cond, epv_leaf, hr, k0, k1, k2, k3, if_true, if_false, lt_self_iff_false, Matrix.of_apply, Matrix.cons_val, Fin.zero_eta, Fin.mk_one, Fin.reduceFinMk, Fin.isValue]
-        try ring
+        simp only [EnergyS0.F, hp] <;> epv_eos_res_eq
       refine (((hs.1.sub_const _).add hc).congr_of_eventuallyEq hev).congr_deriv ?_
-      simp only [EnergyS0.J, hp, epv_c16, epv_tree, epv_cond, epv_leaf, epv_deriv, hρ, k0, k1, k2, k3, if_true, if_false, lt_self_iff_false, Matrix.of_apply, Matrix.cons_val, Fin.zero_eta, Fin.mk_one, Fin.reduceFinMk, Fin.isValue]
-      try field_simp
-      try ring
+      simp only [EnergyS0.J, hp] <;> epv_eos_res_unfold <;> epv_eos_field
     · have hc : HasDerivAt (fun r => ResEnergyAbsS0_res.L4.F2 p ρ r D) (ResEnergyAbsS0_res.L4.F2_dpres p ρ x D) x := by
-        apply ResEnergyAbsS0_res.L4.F2_hasDerivAt_pres <;> assumption
+        epv_eos_cert ResEnergyAbsS0_res.L4.F2_hasDerivAt_pres p ρ x D
       have hev : (fun r => EnergyS0.F s ic ρ r D 2) =ᶠ[nhds x] fun r => (s.e ρ r - s.e ρ x) + ResEnergyAbsS0_res.L4.F2 p ρ r D := by
         filter_upwards with r
-        have hr := hρ
-        simp only [EnergyS0.F, hp, epv_c16, epv_tree, epv_cond, epv_leaf, hr, k0, k1, k2, k3, if_true, if_false, lt_self_iff_false, Matrix.of_apply, Matrix.cons_val, Fin.zero_eta, Fin.mk_one, Fin.reduceFinMk, Fin.isValue]
-        try ring
+        simp only [EnergyS0.F, hp] <;> epv_eos_res_eq
       refine (((hs.2.sub_const _).add hc).congr_of_eventuallyEq hev).congr_deriv ?_
-      simp only [EnergyS0.J, hp, epv_c16, epv_tree, epv_cond, epv_leaf, epv_deriv, hρ, k0, k1, k2, k3, if_true, if_false, lt_self_iff_false, Matrix.of_apply, Matrix.cons_val, Fin.zero_eta, Fin.mk_one, Fin.reduceFinMk, Fin.isValue]
-      try field_simp
-      try ring
+      simp only [EnergyS0.J, hp] <;> epv_eos_res_unfold <;> epv_eos_field
     · have hc : HasDerivAt (fun r => ResEnergyAbsS0_res.L4.F2 p ρ x r) (ResEnergyAbsS0_res.L4.F2_dD p ρ x D) D := by
-        apply ResEnergyAbsS0_res.L4.F2_hasDerivAt_D <;> assumption
+        epv_eos_cert ResEnergyAbsS0_res.L4.F2_hasDerivAt_D p ρ x D
       have hev : (fun r => EnergyS0.F s ic ρ x r 2) =ᶠ[nhds D] fun r => ResEnergyAbsS0_res.L4.F2 p ρ x r := by
-        filter_upwards with r
-        have hr := hρ
-        simp only [EnergyS0.F, hp, epv_c16, epv_tree, epv_cond, epv_leaf, hr, k0, k1, k2, k3, if_true, if_false, lt_self_iff_false, Matrix.of_apply, Matrix.cons_val, Fin.zero_eta, Fin.mk_one, Fin.reduceFinMk, Fin.isValue]
-        try ring
+        filter_upwards [isOpen_ne.mem_nhds hD] with r hr
+        simp only [EnergyS0.F, hp] <;> epv_eos_res_eq
       refine (hc.congr_of_eventuallyEq hev).congr_deriv ?_
-      simp only [EnergyS0.J, hp, epv_c16, epv_tree, epv_cond, epv_leaf, epv_deriv, hρ, k0, k1, k2, k3, if_true, if_false, lt_self_iff_false, Matrix.of_apply, Matrix.cons_val, Fin.zero_eta, Fin.mk_one, Fin.reduceFinMk, Fin.isValue]
-      try field_simp
-      try ring
+      simp only [EnergyS0.J, hp] <;> epv_eos_res_unfold <;> epv_eos_field
 
 /-- `determinant` is the determinant of `F_prime` -/
 theorem energyS0_det (s : EOS) (ic : NohIC) (ρ x D : ℝ) (hic : ic.Admissible 0) (hρ : ρ ≠ 0) :
     EnergyS0.detv s ic ρ x D = (EnergyS0.J s ic ρ x D).det := by
   obtain ⟨hu, hr0, hP0, hm⟩ := hic
-  have k0 : ¬ (0 ≤ ic.u_0) := not_le.mpr hu
-  have k1 : ¬ (ic.rho_0 ≤ 0) := not_le.mpr hr0
-  have k2 : ¬ (ic.P_0 < 0) := not_lt.mpr hP0
-  have k3 : True := trivial
   rw [Matrix.det_fin_three]
-  simp only [EnergyS0.detv, EnergyS0.J, epv_c16, epv_tree, epv_cond, epv_leaf, hρ, k0, k1, k2, k3, if_true, if_false, lt_self_iff_false, Matrix.of_apply, Matrix.cons_val, Fin.zero_eta, Fin.mk_one, Fin.reduceFinMk, Fin.isValue]
-  ring
+  simp only [EnergyS0.detv, EnergyS0.J] <;> epv_eos_res_eq
 
 /-- `F_prime_inv · F_prime = 1` wherever the class does not raise `ZeroDeterminantError` (`determinant ≠ 0`) -/
 theorem energyS0_inverse (s : EOS) (ic : NohIC) (ρ x D : ℝ) (hic : ic.Admissible 0) (hρ : ρ ≠ 0) (hD : D ≠ 0)
     (hdet : EnergyS0.detv s ic ρ x D ≠ 0) :
     EnergyS0.Jinv s ic ρ x D * EnergyS0.J s ic ρ x D = 1 := by
   obtain ⟨hu, hr0, hP0, hm⟩ := hic
-  have k0 : ¬ (0 ≤ ic.u_0) := not_le.mpr hu
-  have k1 : ¬ (ic.rho_0 ≤ 0) := not_le.mpr hr0
-  have k2 : ¬ (ic.P_0 < 0) := not_lt.mpr hP0
-  have k3 : True := trivial
-  generalize hd : EnergyS0.detv s ic ρ x D = d at hdet
-  simp only [EnergyS0.detv, epv_c16, epv_tree, epv_cond, epv_leaf, hρ, k0, k1, k2, k3, if_true, if_false, lt_self_iff_false] at hd
+  have hdet' := hdet
+  simp only [EnergyS0.detv, epv_c16, epv_tree] at hdet'
+  revert hdet'
+  epv_eos_ifs
+  intro hdet'
+  simp only [epv_leaf] at hdet'
+  epv_eos_gen_ne hdet'
+  -- the guards of all entries of `F_prime_inv` and `F_prime` are decided once, at matrix level
+  simp only [EnergyS0.Jinv, EnergyS0.J, epv_c16]
+  simp only [epv_tree]
+  epv_eos_ifs
   ext i j
   fin_cases i <;> fin_cases j <;>
-    simp only [EnergyS0.Jinv, EnergyS0.J, epv_c16, epv_tree, epv_cond, epv_leaf, hρ, hd, hdet, k0, k1, k2, k3, if_true, if_false, lt_self_iff_false,
-      Matrix.mul_apply, Fin.sum_univ_three, Matrix.one_apply, Fin.reduceEq, Matrix.of_apply, Matrix.cons_val, Fin.zero_eta, Fin.mk_one, Fin.reduceFinMk, Fin.isValue] <;>
-    (try field_simp) <;> (try simp only [← hd]) <;> (try field_simp) <;> (try ring)
+    (simp only [Matrix.mul_apply, Fin.sum_univ_three, Matrix.one_apply, Fin.reduceEq, if_true, if_false, Matrix.of_apply, Matrix.cons_val, Fin.zero_eta, Fin.mk_one, Fin.reduceFinMk, Fin.isValue]
+     simp only [epv_leaf]
+     epv_eos_inv_entry)
 
 /-- `energy_noh_residual`, symmetry 1: every entry of `F_prime` is the partial derivative of the corresponding component of `F`, for any EOS whose derivative methods are correct at the state -/
 theorem energyS1_jacobian (s : EOS) (ic : NohIC) (ρ x D : ℝ) (hic : ic.Admissible 1) (hρ : ρ ≠ 0) (hD : D ≠ 0)
     (hs : s.EnergyDerivsAt ρ x) :
     IsJacobian3 (EnergyS1.F s ic) (EnergyS1.J s ic ρ x D) ρ x D := by
   obtain ⟨hu, hr0, hP0, hm⟩ := hic
-  have k0 : ¬ (0 ≤ ic.u_0) := not_le.mpr hu
-  have k1 : ¬ (ic.rho_0 ≤ 0) := not_le.mpr hr0
-  have k2 : ¬ (ic.P_0 < 0) := not_lt.mpr hP0
   have hPz : ic.P_0 = 0 := hm (by norm_num)
-  have k3 := eq_true hPz
   set p := EnergyS1.pres s ic ρ x with hp
   intro i
   fin_cases i <;> (try simp only [Fin.zero_eta, Fin.mk_one, Fin.reduceFinMk])
   · refine ⟨?_, ?_, ?_⟩
     · have hc : HasDerivAt (fun r => ResEnergyAbsS1_res.L5.F0 p r x D) (ResEnergyAbsS1_res.L5.F0_drho p ρ x D) ρ := by
-        apply ResEnergyAbsS1_res.L5.F0_hasDerivAt_rho <;> assumption
+        epv_eos_cert ResEnergyAbsS1_res.L5.F0_hasDerivAt_rho p ρ x D
       have hev : (fun r => EnergyS1.F s ic r x D 0) =ᶠ[nhds ρ] fun r => ResEnergyAbsS1_res.L5.F0 p r x D := by
         filter_upwards [isOpen_ne.mem_nhds hρ] with r hr
-        simp only [EnergyS1.F, hp, epv_c16, epv_tree, epv_cond, epv_leaf, hr, k0, k1, k2, k3, if_true, if_false, lt_self_iff_false, Matrix.of_apply, Matrix.cons_val, Fin.zero_eta, Fin.mk_one, Fin.reduceFinMk, Fin.isValue]
-        try ring
+        simp only [EnergyS1.F, hp] <;> epv_eos_res_eq
       refine (hc.congr_of_eventuallyEq hev).congr_deriv ?_
-      simp only [EnergyS1.J, hp, epv_c16, epv_tree, epv_cond, epv_leaf, epv_deriv, hρ, k0, k1, k2, k3, if_true, if_false, lt_self_iff_false, Matrix.of_apply, Matrix.cons_val, Fin.zero_eta, Fin.mk_one, Fin.reduceFinMk, Fin.isValue]
-      try field_simp
-      try ring
+      simp only [EnergyS1.J, hp] <;> epv_eos_res_unfold <;> epv_eos_field
     · have hc : HasDerivAt (fun r => ResEnergyAbsS1_res.L5.F0 p ρ r D) (ResEnergyAbsS1_res.L5.F0_dpres p ρ x D) x := by
-        apply ResEnergyAbsS1_res.L5.F0_hasDerivAt_pres <;> assumption
+        epv_eos_cert ResEnergyAbsS1_res.L5.F0_hasDerivAt_pres p ρ x D
       have hev : (fun r => EnergyS1.F s ic ρ r D 0) =ᶠ[nhds x] fun r => ResEnergyAbsS1_res.L5.F0 p ρ r D := by
         filter_upwards with r
-        have hr := hρ
-        simp only [EnergyS1.F, hp, epv_c16, epv_tree, epv_cond, epv_leaf, hr, k0, k1, k2, k3, if_true, if_false, lt_self_iff_false, Matrix.of_apply, Matrix.cons_val, Fin.zero_eta, Fin.mk_one, Fin.reduceFinMk, Fin.isValue]
-        try ring
+        simp only [EnergyS1.F, hp] <;> epv_eos_res_eq
       refine (hc.congr_of_eventuallyEq hev).congr_deriv ?_
-      simp only [EnergyS1.J, hp, epv_c16, epv_tree, epv_cond, epv_leaf, epv_deriv, hρ, k0, k1, k2, k3, if_true, if_false, lt_self_iff_false, Matrix.of_apply, Matrix.cons_val, Fin.zero_eta, Fin.mk_one, Fin.reduceFinMk, Fin.isValue]
-      try field_simp
-      try ring
+      simp only [EnergyS1.J, hp] <;> epv_eos_res_unfold <;> epv_eos_field
     · have hc : HasDerivAt (fun r => ResEnergyAbsS1_res.L5.F0 p ρ x r) (ResEnergyAbsS1_res.L5.F0_dD p ρ x D) D := by
-        apply ResEnergyAbsS1_res.L5.F0_hasDerivAt_D <;> assumption
+        epv_eos_cert ResEnergyAbsS1_res.L5.F0_hasDerivAt_D p ρ x D
       have hev : (fun r => EnergyS1.F s ic ρ x r 0) =ᶠ[nhds D] fun r => ResEnergyAbsS1_res.L5.F0 p ρ x r := by
-        filter_upwards with r
-        have hr := hρ
-        simp only [EnergyS1.F, hp, epv_c16, epv_tree, epv_cond, epv_leaf, hr, k0, k1, k2, k3, if_true, if_false, lt_self_iff_false, Matrix.of_apply, Matrix.cons_val, Fin.zero_eta, Fin.mk_one, Fin.reduceFinMk, Fin.isValue]
-        try ring
+        filter_upwards [isOpen_ne.mem_nhds hD] with r hr
+        simp only [EnergyS1.F, hp] <;> epv_eos_res_eq
       refine (hc.congr_of_eventuallyEq hev).congr_deriv ?_
-      simp only [EnergyS1.J, hp, epv_c16, epv_tree, epv_cond, epv_leaf, epv_deriv, hρ, k0, k1, k2, k3, if_true, if_false, lt_self_iff_false, Matrix.of_apply, Matrix.cons_val, Fin.zero_eta, Fin.mk_one, Fin.reduceFinMk, Fin.isValue]
-      try field_simp
-      try ring
+      simp only [EnergyS1.J, hp] <;> epv_eos_res_unfold <;> epv_eos_field
   · refine ⟨?_, ?_, ?_⟩
     · have hc : HasDerivAt (fun r => ResEnergyAbsS1_res.L5.F1 p r x D) (ResEnergyAbsS1_res.L5.F1_drho p ρ x D) ρ := by
-        apply ResEnergyAbsS1_res.L5.F1_hasDerivAt_rho <;> assumption
+        epv_eos_cert ResEnergyAbsS1_res.L5.F1_hasDerivAt_rho p ρ x D
       have hev : (fun r => EnergyS1.F s ic r x D 1) =ᶠ[nhds ρ] fun r => ResEnergyAbsS1_res.L5.F1 p r x D := by
         filter_upwards [isOpen_ne.mem_nhds hρ] with r hr
-        simp only [EnergyS1.F, hp, epv_c16, epv_tree, epv_cond, epv_leaf, hr, k0, k1, k2, k3, if_true, if_false, lt_self_iff_false, Matrix.of_apply, Matrix.cons_val, Fin.zero_eta, Fin.mk_one, Fin.reduceFinMk, Fin.isValue]
-        try ring
+        simp only [EnergyS1.F, hp] <;> epv_eos_res_eq
       refine (hc.congr_of_eventuallyEq hev).congr_deriv ?_
-      simp only [EnergyS1.J, hp, epv_c16, epv_tree, epv_cond, epv_leaf, epv_deriv, hρ, k0, k1, k2, k3, if_true, if_false, lt_self_iff_false, Matrix.of_apply, Matrix.cons_val, Fin.zero_eta, Fin.mk_one, Fin.reduceFinMk, Fin.isValue]
-      try field_simp
-      try ring
+      simp only [EnergyS1.J, hp] <;> epv_eos_res_unfold <;> epv_eos_field
     · have hc : HasDerivAt (fun r => ResEnergyAbsS1_res.L5.F1 p ρ r D) (ResEnergyAbsS1_res.L5.F1_dpres p ρ x D) x := by
-        apply ResEnergyAbsS1_res.L5.F1_hasDerivAt_pres <;> assumption
+        epv_eos_cert ResEnergyAbsS1_res.L5.F1_hasDerivAt_pres p ρ x D
       have hev : (fun r => EnergyS1.F s ic ρ r D 1) =ᶠ[nhds x] fun r => ResEnergyAbsS1_res.L5.F1 p ρ r D := by
         filter_upwards with r
-        have hr := hρ
-        simp only [EnergyS1.F, hp, epv_c16, epv_tree, epv_cond, epv_leaf, hr, k0, k1, k2, k3, if_true, if_false, lt_self_iff_false, Matrix.of_apply, Matrix.cons_val, Fin.zero_eta, Fin.mk_one, Fin.reduceFinMk, Fin.isValue]
-        try ring
+        simp only [EnergyS1.F, hp] <;> epv_eos_res_eq
       refine (hc.congr_of_eventuallyEq hev).congr_deriv ?_
-      simp only [EnergyS1.J, hp, epv_c16, epv_tree, epv_cond, epv_leaf, epv_deriv, hρ, k0, k1, k2, k3, if_true, if_false, lt_self_iff_false, Matrix.of_apply, Matrix.cons_val, Fin.zero_eta, Fin.mk_one, Fin.reduceFinMk, Fin.isValue]
-      try field_simp
-      try ring
+      simp only [EnergyS1.J, hp] <;> epv_eos_res_unfold <;> epv_eos_field
     · have hc : HasDerivAt (fun r => ResEnergyAbsS1_res.L5.F1 p ρ x r) (ResEnergyAbsS1_res.L5.F1_dD p ρ x D) D := by
-        apply ResEnergyAbsS1_res.L5.F1_hasDerivAt_D <;> assumption
+        epv_eos_cert ResEnergyAbsS1_res.L5.F1_hasDerivAt_D p ρ x D
       have hev : (fun r => EnergyS1.F s ic ρ x r 1) =ᶠ[nhds D] fun r => ResEnergyAbsS1_res.L5.F1 p ρ x r := by
-        filter_upwards with r
-        have hr := hρ
-        simp only [EnergyS1.F, hp, epv_c16, epv_tree, epv_cond, epv_leaf, hr, k0, k1, k2, k3, if_true, if_false, lt_self_iff_false, Matrix.of_apply, Matrix.cons_val, Fin.zero_eta, Fin.mk_one, Fin.reduceFinMk, Fin.isValue]
-        try ring
+        filter_upwards [isOpen_ne.mem_nhds hD] with r hr
+        simp only [EnergyS1.F, hp] <;> epv_eos_res_eq
       refine (hc.congr_of_eventuallyEq hev).congr_deriv ?_
-      simp only [EnergyS1.J, hp, epv_c16, epv_tree, epv_cond, epv_leaf, epv_deriv, hρ, k0, k1, k2, k3, if_true, if_false, lt_self_iff_false, Matrix.of_apply, Matrix.cons_val, Fin.zero_eta, Fin.mk_one, Fin.reduceFinMk, Fin.isValue]
-      try field_simp
-      try ring
+      simp only [EnergyS1.J, hp] <;> epv_eos_res_unfold <;> epv_eos_field
   · refine ⟨?_, ?_, ?_⟩
     · have hc : HasDerivAt (fun r => ResEnergyAbsS1_res.L5.F2 p r x D) (ResEnergyAbsS1_res.L5.F2_drho p ρ x D) ρ := by
-        apply ResEnergyAbsS1_res.L5.F2_hasDerivAt_rho <;> assumption
+        epv_eos_cert ResEnergyAbsS1_res.L5.F2_hasDerivAt_rho p ρ x D
       have hev : (fun r => EnergyS1.F s ic r x D 2) =ᶠ[nhds ρ] fun r => (s.e r x - s.e ρ x) + ResEnergyAbsS1_res.L5.F2 p r x D := by
         filter_upwards [isOpen_ne.mem_nhds hρ] with r hr
-        simp only [EnergyS1.F, hp, epv_c16, epv_tree, epv_cond, epv_leaf, hr, k0, k1, k2, k3, if_true, if_false, lt_self_iff_false, Matrix.of_apply, Matrix.cons_val, Fin.zero_eta, Fin.mk_one, Fin.reduceFinMk, Fin.isValue]
-        try ring
+        simp only [EnergyS1.F, hp] <;> epv_eos_res_eq
       refine (((hs.1.sub_const _).add hc).congr_of_eventuallyEq hev).congr_deriv ?_
-      simp only [EnergyS1.J, hp, epv_c16, epv_tree, epv_cond, epv_leaf, epv_deriv, hρ, k0, k1, k2, k3, if_true, if_false, lt_self_iff_false, Matrix.of_apply, Matrix.cons_val, Fin.zero_eta, Fin.mk_one, Fin.reduceFinMk, Fin.isValue]
-      try field_simp
-      try ring
+      simp only [EnergyS1.J, hp] <;> epv_eos_res_unfold <;> epv_eos_field
     · have hc : HasDerivAt (fun r => ResEnergyAbsS1_res.L5.F2 p ρ r D) (ResEnergyAbsS1_res.L5.F2_dpres p ρ x D) x := by
-        apply ResEnergyAbsS1_res.L5.F2_hasDerivAt_pres <;> assumption
+        epv_eos_cert ResEnergyAbsS1_res.L5.F2_hasDerivAt_pres p ρ x D
       have hev : (fun r => EnergyS1.F s ic ρ r D 2) =ᶠ[nhds x] fun r => (s.e ρ r - s.e ρ x) + ResEnergyAbsS1_res.L5.F2 p ρ r D := by
         filter_upwards with r
-        have hr := hρ
-        simp only [EnergyS1.F, hp, epv_c16, epv_tree, epv_cond, epv_leaf, hr, k0, k1, k2, k3, if_true, if_false, lt_self_iff_false, Matrix.of_apply, Matrix.cons_val, Fin.zero_eta, Fin.mk_one, Fin.reduceFinMk, Fin.isValue]
-        try ring
+        simp only [EnergyS1.F, hp] <;> epv_eos_res_eq
       refine (((hs.2.sub_const _).add hc).congr_of_eventuallyEq hev).congr_deriv ?_
-      simp only [EnergyS1.J, hp, epv_c16, epv_tree, epv_cond, epv_leaf, epv_deriv, hρ, k0, k1, k2, k3, if_true, if_false, lt_self_iff_false, Matrix.of_apply, Matrix.cons_val, Fin.zero_eta, Fin.mk_one, Fin.reduceFinMk, Fin.isValue]
-      try field_simp
-      try ring
+      simp only [EnergyS1.J, hp] <;> epv_eos_res_unfold <;> epv_eos_field
     · have hc : HasDerivAt (fun r => ResEnergyAbsS1_res.L5.F2 p ρ x r) (ResEnergyAbsS1_res.L5.F2_dD p ρ x D) D := by
-        apply ResEnergyAbsS1_res.L5.F2_hasDerivAt_D <;> assumption
+        epv_eos_cert ResEnergyAbsS1_res.L5.F2_hasDerivAt_D p ρ x D
       have hev : (fun r => EnergyS1.F s ic ρ x r 2) =ᶠ[nhds D] fun r => ResEnergyAbsS1_res.L5.F2 p ρ x r := by
-        filter_upwards with r
-        have hr := hρ
-        simp only [EnergyS1.F, hp, epv_c16, epv_tree, epv_cond, epv_leaf, hr, k0, k1, k2, k3, if_true, if_false, lt_self_iff_false, Matrix.of_apply, Matrix.cons_val, Fin.zero_eta, Fin.mk_one, Fin.reduceFinMk, Fin.isValue]
-        try ring
+        filter_upwards [isOpen_ne.mem_nhds hD] with r hr
+        simp only [EnergyS1.F, hp] <;> epv_eos_res_eq
       refine (hc.congr_of_eventuallyEq hev).congr_deriv ?_
-      simp only [EnergyS1.J, hp, epv_c16, epv_tree, epv_cond, epv_leaf, epv_deriv, hρ, k0, k1, k2, k3, if_true, if_false, lt_self_iff_false, Matrix.of_apply, Matrix.cons_val, Fin.zero_eta, Fin.mk_one, Fin.reduceFinMk, Fin.isValue]
-      try field_simp
-      try ring
+      simp only [EnergyS1.J, hp] <;> epv_eos_res_unfold <;> epv_eos_field
 
 /-- `determinant` is the determinant of `F_prime` -/
 theorem energyS1_det (s : EOS) (ic : NohIC) (ρ x D : ℝ) (hic : ic.Admissible 1) (hρ : ρ ≠ 0) :
     EnergyS1.detv s ic ρ x D = (EnergyS1.J s ic ρ x D).det := by
   obtain ⟨hu, hr0, hP0, hm⟩ := hic
-  have k0 : ¬ (0 ≤ ic.u_0) := not_le.mpr hu
-  have k1 : ¬ (ic.rho_0 ≤ 0) := not_le.mpr hr0
-  have k2 : ¬ (ic.P_0 < 0) := not_lt.mpr hP0
   have hPz : ic.P_0 = 0 := hm (by norm_num)
-  have k3 := eq_true hPz
   rw [Matrix.det_fin_three]
-  simp only [EnergyS1.detv, EnergyS1.J, epv_c16, epv_tree, epv_cond, epv_leaf, hρ, k0, k1, k2, k3, if_true, if_false, lt_self_iff_false, Matrix.of_apply, Matrix.cons_val, Fin.zero_eta, Fin.mk_one, Fin.reduceFinMk, Fin.isValue]
-  ring
+  simp only [EnergyS1.detv, EnergyS1.J] <;> epv_eos_res_eq
 
 /-- `F_prime_inv · F_prime = 1` wherever the class does not raise `ZeroDeterminantError` (`determinant ≠ 0`) -/
 theorem energyS1_inverse (s : EOS) (ic : NohIC) (ρ x D : ℝ) (hic : ic.Admissible 1) (hρ : ρ ≠ 0) (hD : D ≠ 0)
     (hdet : EnergyS1.detv s ic ρ x D ≠ 0) :
     EnergyS1.Jinv s ic ρ x D * EnergyS1.J s ic ρ x D = 1 := by
   obtain ⟨hu, hr0, hP0, hm⟩ := hic
-  have k0 : ¬ (0 ≤ ic.u_0) := not_le.mpr hu
-  have k1 : ¬ (ic.rho_0 ≤ 0) := not_le.mpr hr0
-  have k2 : ¬ (ic.P_0 < 0) := not_lt.mpr hP0
   have hPz : ic.P_0 = 0 := hm (by norm_num)
-  have k3 := eq_true hPz
-  generalize hd : EnergyS1.detv s ic ρ x D = d at hdet
-  simp only [EnergyS1.detv, epv_c16, epv_tree, epv_cond, epv_leaf, hρ, k0, k1, k2, k3, if_true, if_false, lt_self_iff_false] at hd
+  have hdet' := hdet
+  simp only [EnergyS1.detv, epv_c16, epv_tree] at hdet'
+  revert hdet'
+  epv_eos_ifs
+  intro hdet'
+  simp only [epv_leaf] at hdet'
+  epv_eos_gen_ne hdet'
+  -- the guards of all entries of `F_prime_inv` and `F_prime` are decided once, at matrix level
+  simp only [EnergyS1.Jinv, EnergyS1.J, epv_c16]
+  simp only [epv_tree]
+  epv_eos_ifs
   ext i j
   fin_cases i <;> fin_cases j <;>
-    simp only [EnergyS1.Jinv, EnergyS1.J, epv_c16, epv_tree, epv_cond, epv_leaf, hρ, hd, hdet, k0, k1, k2, k3, if_true, if_false, lt_self_iff_false,
-      Matrix.mul_apply, Fin.sum_univ_three, Matrix.one_apply, Fin.reduceEq, Matrix.of_apply, Matrix.cons_val, Fin.zero_eta, Fin.mk_one, Fin.reduceFinMk, Fin.isValue] <;>
-    (try field_simp) <;> (try simp only [← hd]) <;> (try field_simp) <;> (try ring)
+    (simp only [Matrix.mul_apply, Fin.sum_univ_three, Matrix.one_apply, Fin.reduceEq, if_true, if_false, Matrix.of_apply, Matrix.cons_val, Fin.zero_eta, Fin.mk_one, Fin.reduceFinMk, Fin.isValue]
+     simp only [epv_leaf]
+     epv_eos_inv_entry)
 
 /-- `energy_noh_residual`, symmetry 2: every entry of `F_prime` is the partial derivative of the corresponding component of `F`, for any EOS whose derivative methods are correct at the state -/
 theorem energyS2_jacobian (s : EOS) (ic : NohIC) (ρ x D : ℝ) (hic : ic.Admissible 2) (hρ : ρ ≠ 0) (hD : D ≠ 0)
     (hs : s.EnergyDerivsAt ρ x) :
     IsJacobian3 (EnergyS2.F s ic) (EnergyS2.J s ic ρ x D) ρ x D := by
   obtain ⟨hu, hr0, hP0, hm⟩ := hic
-  have k0 : ¬ (0 ≤ ic.u_0) := not_le.mpr hu
-  have k1 : ¬ (ic.rho_0 ≤ 0) := not_le.mpr hr0
-  have k2 : ¬ (ic.P_0 < 0) := not_lt.mpr hP0
   have hPz : ic.P_0 = 0 := hm (by norm_num)
-  have k3 := eq_true hPz
   set p := EnergyS2.pres s ic ρ x with hp
   intro i
   fin_cases i <;> (try simp only [Fin.zero_eta, Fin.mk_one, Fin.reduceFinMk])
   · refine ⟨?_, ?_, ?_⟩
     · have hc : HasDerivAt (fun r => ResEnergyAbsS2_res.L5.F0 p r x D) (ResEnergyAbsS2_res.L5.F0_drho p ρ x D) ρ := by
-        apply ResEnergyAbsS2_res.L5.F0_hasDerivAt_rho <;> assumption
+        epv_eos_cert ResEnergyAbsS2_res.L5.F0_hasDerivAt_rho p ρ x D
       have hev : (fun r => EnergyS2.F s ic r x D 0) =ᶠ[nhds ρ] fun r => ResEnergyAbsS2_res.L5.F0 p r x D := by
         filter_upwards [isOpen_ne.mem_nhds hρ] with r hr
-        simp only [EnergyS2.F, hp, epv_c16, epv_tree, epv_cond, epv_leaf, hr, k0, k1, k2, k3, if_true, if_false, lt_self_iff_false, Matrix.of_apply, Matrix.cons_val, Fin.zero_eta, Fin.mk_one, Fin.reduceFinMk, Fin.isValue]
-        try ring
+        simp only [EnergyS2.F, hp] <;> epv_eos_res_eq
       refine (hc.congr_of_eventuallyEq hev).congr_deriv ?_
-      simp only [EnergyS2.J, hp, epv_c16, epv_tree, epv_cond, epv_leaf, epv_deriv, hρ, k0, k1, k2, k3, if_true, if_false, lt_self_iff_false, Matrix.of_apply, Matrix.cons_val, Fin.zero_eta, Fin.mk_one, Fin.reduceFinMk, Fin.isValue]
-      try field_simp
-      try ring
+      simp only [EnergyS2.J, hp] <;> epv_eos_res_unfold <;> epv_eos_field
     · have hc : HasDerivAt (fun r => ResEnergyAbsS2_res.L5.F0 p ρ r D) (ResEnergyAbsS2_res.L5.F0_dpres p ρ x D) x := by
-        apply ResEnergyAbsS2_res.L5.F0_hasDerivAt_pres <;> assumption
+        epv_eos_cert ResEnergyAbsS2_res.L5.F0_hasDerivAt_pres p ρ x D
       have hev : (fun r => EnergyS2.F s ic ρ r D 0) =ᶠ[nhds x] fun r => ResEnergyAbsS2_res.L5.F0 p ρ r D := by
         filter_upwards with r
-        have hr := hρ
-        simp only [EnergyS2.F, hp, epv_c16, epv_tree, epv_cond, epv_leaf, hr, k0, k1, k2, k3, if_true, if_false, lt_self_iff_false, Matrix.of_apply, Matrix.cons_val, Fin.zero_eta, Fin.mk_one, Fin.reduceFinMk, Fin.isValue]
-        try ring
+        simp only [EnergyS2.F, hp] <;> epv_eos_res_eq
       refine (hc.congr_of_eventuallyEq hev).congr_deriv ?_
-      simp only [EnergyS2.J, hp, epv_c16, epv_tree, epv_cond, epv_leaf, epv_deriv, hρ, k0, k1, k2, k3, if_true, if_false, lt_self_iff_false, Matrix.of_apply, Matrix.cons_val, Fin.zero_eta, Fin.mk_one, Fin.reduceFinMk, Fin.isValue]
-      try field_simp
-      try ring
+      simp only [EnergyS2.J, hp] <;> epv_eos_res_unfold <;> epv_eos_field
     · have hc : HasDerivAt (fun r => ResEnergyAbsS2_res.L5.F0 p ρ x r) (ResEnergyAbsS2_res.L5.F0_dD p ρ x D) D := by
-        apply ResEnergyAbsS2_res.L5.F0_hasDerivAt_D <;> assumption
+        epv_eos_cert ResEnergyAbsS2_res.L5.F0_hasDerivAt_D p ρ x D
       have hev : (fun r => EnergyS2.F s ic ρ x r 0) =ᶠ[nhds D] fun r => ResEnergyAbsS2_res.L5.F0 p ρ x r := by
-        filter_upwards with r
-        have hr := hρ
-        simp only [EnergyS2.F, hp, epv_c16, epv_tree, epv_cond, epv_leaf, hr, k0, k1, k2, k3, if_true, if_false, lt_self_iff_false, Matrix.of_apply, Matrix.cons_val, Fin.zero_eta, Fin.mk_one, Fin.reduceFinMk, Fin.isValue]
-        try ring
+        filter_upwards [isOpen_ne.mem_nhds hD] with r hr
+        simp only [EnergyS2.F, hp] <;> epv_eos_res_eq
       refine (hc.congr_of_eventuallyEq hev).congr_deriv ?_
-      simp only [EnergyS2.J, hp, epv_c16, epv_tree, epv_cond, epv_leaf, epv_deriv, hρ, k0, k1, k2, k3, if_true, if_false, lt_self_iff_false, Matrix.of_apply, Matrix.cons_val, Fin.zero_eta, Fin.mk_one, Fin.reduceFinMk, Fin.isValue]
-      try field_simp
-      try ring
+      simp only [EnergyS2.J, hp] <;> epv_eos_res_unfold <;> epv_eos_field
   · refine ⟨?_, ?_, ?_⟩
     · have hc : HasDerivAt (fun r => ResEnergyAbsS2_res.L5.F1 p r x D) (ResEnergyAbsS2_res.L5.F1_drho p ρ x D) ρ := by
-        apply ResEnergyAbsS2_res.L5.F1_hasDerivAt_rho <;> assumption
+        epv_eos_cert ResEnergyAbsS2_res.L5.F1_hasDerivAt_rho p ρ x D
       have hev : (fun r => EnergyS2.F s ic r x D 1) =ᶠ[nhds ρ] fun r => ResEnergyAbsS2_res.L5.F1 p r x D := by
         filter_upwards [isOpen_ne.mem_nhds hρ] with r hr
-        simp only [EnergyS2.F, hp, epv_c16, epv_tree, epv_cond, epv_leaf, hr, k0, k1, k2, k3, if_true, if_false, lt_self_iff_false, Matrix.of_apply, Matrix.cons_val, Fin.zero_eta, Fin.mk_one, Fin.reduceFinMk, Fin.isValue]
-        try ring
+        simp only [EnergyS2.F, hp] <;> epv_eos_res_eq
       refine (hc.congr_of_eventuallyEq hev).congr_deriv ?_
-      simp only [EnergyS2.J, hp, epv_c16, epv_tree, epv_cond, epv_leaf, epv_deriv, hρ, k0, k1, k2, k3, if_true, if_false, lt_self_iff_false, Matrix.of_apply, Matrix.cons_val, Fin.zero_eta, Fin.mk_one, Fin.reduceFinMk, Fin.isValue]
-      try field_simp
-      try ring
+      simp only [EnergyS2.J, hp] <;> epv_eos_res_unfold <;> epv_eos_field
     · have hc : HasDerivAt (fun r => ResEnergyAbsS2_res.L5.F1 p ρ r D) (ResEnergyAbsS2_res.L5.F1_dpres p ρ x D) x := by
-        apply ResEnergyAbsS2_res.L5.F1_hasDerivAt_pres <;> assumption
+        epv_eos_cert ResEnergyAbsS2_res.L5.F1_hasDerivAt_pres p ρ x D
       have hev : (fun r => EnergyS2.F s ic ρ r D 1) =ᶠ[nhds x] fun r => ResEnergyAbsS2_res.L5.F1 p ρ r D := by
         filter_upwards with r
-        have hr := hρ
-        simp only [EnergyS2.F, hp, epv_c16, epv_tree, epv_cond, epv_leaf, hr, k0, k1, k2, k3, if_true, if_false, lt_self_iff_false, Matrix.of_apply, Matrix.cons_val, Fin.zero_eta, Fin.mk_one, Fin.reduceFinMk, Fin.isValue]
-        try ring
+        simp only [EnergyS2.F, hp] <;> epv_eos_res_eq
       refine (hc.congr_of_eventuallyEq hev).congr_deriv ?_
-      simp only [EnergyS2.J, hp, epv_c16, epv_tree, epv_cond, epv_leaf, epv_deriv, hρ, k0, k1, k2, k3, if_true, if_false, lt_self_iff_false, Matrix.of_apply, Matrix.cons_val, Fin.zero_eta, Fin.mk_one, Fin.reduceFinMk, Fin.isValue]
-      try field_simp
-      try ring
+      simp only [EnergyS2.J, hp] <;> epv_eos_res_unfold <;> epv_eos_field
     · have hc : HasDerivAt (fun r => ResEnergyAbsS2_res.L5.F1 p ρ x r) (ResEnergyAbsS2_res.L5.F1_dD p ρ x D) D := by
-        apply ResEnergyAbsS2_res.L5.F1_hasDerivAt_D <;> assumption
+        epv_eos_cert ResEnergyAbsS2_res.L5.F1_hasDerivAt_D p ρ x D
       have hev : (fun r => EnergyS2.F s ic ρ x r 1) =ᶠ[nhds D] fun r => ResEnergyAbsS2_res.L5.F1 p ρ x r := by
-        filter_upwards with r
-        have hr := hρ
-        simp only [EnergyS2.F, hp, epv_c16, epv_tree, epv_cond, epv_leaf, hr, k0, k1, k2, k3, if_true, if_false, lt_self_iff_false, Matrix.of_apply, Matrix.cons_val, Fin.zero_eta, Fin.mk_one, Fin.reduceFinMk, Fin.isValue]
-        try ring
+        filter_upwards [isOpen_ne.mem_nhds hD] with r hr
+        simp only [EnergyS2.F, hp] <;> epv_eos_res_eq
       refine (hc.congr_of_eventuallyEq hev).congr_deriv ?_
-      simp only [EnergyS2.J, hp, epv_c16, epv_tree, epv_cond, epv_leaf, epv_deriv, hρ, k0, k1, k2, k3, if_true, if_false, lt_self_iff_false, Matrix.of_apply, Matrix.cons_val, Fin.zero_eta, Fin.mk_one, Fin.reduceFinMk, Fin.isValue]
-      try field_simp
-      try ring
+      simp only [EnergyS2.J, hp] <;> epv_eos_res_unfold <;> epv_eos_field
   · refine ⟨?_, ?_, ?_⟩
     · have hc : HasDerivAt (fun r => ResEnergyAbsS2_res.L5.F2 p r x D) (ResEnergyAbsS2_res.L5.F2_drho p ρ x D) ρ := by
-        apply ResEnergyAbsS2_res.L5.F2_hasDerivAt_rho <;> assumption
+        epv_eos_cert ResEnergyAbsS2_res.L5.F2_hasDerivAt_rho p ρ x D
       have hev : (fun r => EnergyS2.F s ic r x D 2) =ᶠ[nhds ρ] fun r => (s.e r x - s.e ρ x) + ResEnergyAbsS2_res.L5.F2 p r x D := by
         filter_upwards [isOpen_ne.mem_nhds hρ] with r hr
-        simp only [EnergyS2.F, hp, epv_c16, epv_tree, epv_cond, epv_leaf, hr, k0, k1, k2, k3, if_true, if_false, lt_self_iff_false, Matrix.of_apply, Matrix.cons_val, Fin.zero_eta, Fin.mk_one, Fin.reduceFinMk, Fin.isValue]
-        try ring
+        simp only [EnergyS2.F, hp] <;> epv_eos_res_eq
       refine (((hs.1.sub_const _).add hc).congr_of_eventuallyEq hev).congr_deriv ?_
-      simp only [EnergyS2.J, hp, epv_c16, epv_tree, epv_cond, epv_leaf, epv_deriv, hρ, k0, k1, k2, k3, if_true, if_false, lt_self_iff_false, Matrix.of_apply, Matrix.cons_val, Fin.zero_eta, Fin.mk_one, Fin.reduceFinMk, Fin.isValue]
-      try field_simp
-      try ring
+      simp only [EnergyS2.J, hp] <;> epv_eos_res_unfold <;> epv_eos_field
     · have hc : HasDerivAt (fun r => ResEnergyAbsS2_res.L5.F2 p ρ r D) (ResEnergyAbsS2_res.L5.F2_dpres p ρ x D) x := by
-        apply ResEnergyAbsS2_res.L5.F2_hasDerivAt_pres <;> assumption
+        epv_eos_cert ResEnergyAbsS2_res.L5.F2_hasDerivAt_pres p ρ x D
       have hev : (fun r => EnergyS2.F s ic ρ r D 2) =ᶠ[nhds x] fun r => (s.e ρ r - s.e ρ x) + ResEnergyAbsS2_res.L5.F2 p ρ r D := by
         filter_upwards with r
-        have hr := hρ
-        simp only [EnergyS2.F, hp, epv_c16, epv_tree, epv_cond, epv_leaf, hr, k0, k1, k2, k3, if_true, if_false, lt_self_iff_false, Matrix.of_apply, Matrix.cons_val, Fin.zero_eta, Fin.mk_one, Fin.reduceFinMk, Fin.isValue]
-        try ring
+        simp only [EnergyS2.F, hp] <;> epv_eos_res_eq
       refine (((hs.2.sub_const _).add hc).congr_of_eventuallyEq hev).congr_deriv ?_
-      simp only [EnergyS2.J, hp, epv_c16, epv_tree, epv_cond, epv_leaf, epv_deriv, hρ, k0, k1, k2, k3, if_true, if_false, lt_self_iff_false, Matrix.of_apply, Matrix.cons_val, Fin.zero_eta, Fin.mk_one, Fin.reduceFinMk, Fin.isValue]
-      try field_simp
-      try ring
+      simp only [EnergyS2.J, hp] <;> epv_eos_res_unfold <;> epv_eos_field
     · have hc : HasDerivAt (fun r => ResEnergyAbsS2_res.L5.F2 p ρ x r) (ResEnergyAbsS2_res.L5.F2_dD p ρ x D) D := by
-        apply ResEnergyAbsS2_res.L5.F2_hasDerivAt_D <;> assumption
+        epv_eos_cert ResEnergyAbsS2_res.L5.F2_hasDerivAt_D p ρ x D
       have hev : (fun r => EnergyS2.F s ic ρ x r 2) =ᶠ[nhds D] fun r => ResEnergyAbsS2_res.L5.F2 p ρ x r := by
-        filter_upwards with r
-        have hr := hρ
-        simp only [EnergyS2.F, hp, epv_c16, epv_tree, epv_cond, epv_leaf, hr, k0, k1, k2, k3, if_true, if_false, lt_self_iff_false, Matrix.of_apply, Matrix.cons_val, Fin.zero_eta, Fin.mk_one, Fin.reduceFinMk, Fin.isValue]
-        try ring
+        filter_upwards [isOpen_ne.mem_nhds hD] with r hr
+        simp only [EnergyS2.F, hp] <;> epv_eos_res_eq
       refine (hc.congr_of_eventuallyEq hev).congr_deriv ?_
-      simp only [EnergyS2.J, hp, epv_c16, epv_tree, epv_cond, epv_leaf, epv_deriv, hρ, k0, k1, k2, k3, if_true, if_false, lt_self_iff_false, Matrix.of_apply, Matrix.cons_val, Fin.zero_eta, Fin.mk_one, Fin.reduceFinMk, Fin.isValue]
-      try field_simp
-      try ring
+      simp only [EnergyS2.J, hp] <;> epv_eos_res_unfold <;> epv_eos_field
 
 /-- `determinant` is the determinant of `F_prime` -/
 theorem energyS2_det (s : EOS) (ic : NohIC) (ρ x D : ℝ) (hic : ic.Admissible 2) (hρ : ρ ≠ 0) :
     EnergyS2.detv s ic ρ x D = (EnergyS2.J s ic ρ x D).det := by
   obtain ⟨hu, hr0, hP0, hm⟩ := hic
-  have k0 : ¬ (0 ≤ ic.u_0) := not_le.mpr hu
-  have k1 : ¬ (ic.rho_0 ≤ 0) := not_le.mpr hr0
-  have k2 : ¬ (ic.P_0 < 0) := not_lt.mpr hP0
   have hPz : ic.P_0 = 0 := hm (by norm_num)
-  have k3 := eq_true hPz
   rw [Matrix.det_fin_three]
-  simp only [EnergyS2.detv, EnergyS2.J, epv_c16, epv_tree, epv_cond, epv_leaf, hρ, k0, k1, k2, k3, if_true, if_false, lt_self_iff_false, Matrix.of_apply, Matrix.cons_val, Fin.zero_eta, Fin.mk_one, Fin.reduceFinMk, Fin.isValue]
-  ring
+  simp only [EnergyS2.detv, EnergyS2.J] <;> epv_eos_res_eq
 
 /-- `F_prime_inv · F_prime = 1` wherever the class does not raise `ZeroDeterminantError` (`determinant ≠ 0`) -/
 theorem energyS2_inverse (s : EOS) (ic : NohIC) (ρ x D : ℝ) (hic : ic.Admissible 2) (hρ : ρ ≠ 0) (hD : D ≠ 0)
     (hdet : EnergyS2.detv s ic ρ x D ≠ 0) :
     EnergyS2.Jinv s ic ρ x D * EnergyS2.J s ic ρ x D = 1 := by
   obtain ⟨hu, hr0, hP0, hm⟩ := hic
-  have k0 : ¬ (0 ≤ ic.u_0) := not_le.mpr hu
-  have k1 : ¬ (ic.rho_0 ≤ 0) := not_le.mpr hr0
-  have k2 : ¬ (ic.P_0 < 0) := not_lt.mpr hP0
   have hPz : ic.P_0 = 0 := hm (by norm_num)
-  have k3 := eq_true hPz
-  generalize hd : EnergyS2.detv s ic ρ x D = d at hdet
-  simp only [EnergyS2.detv, epv_c16, epv_tree, epv_cond, epv_leaf, hρ, k0, k1, k2, k3, if_true, if_false, lt_self_iff_false] at hd
+  have hdet' := hdet
+  simp only [EnergyS2.detv, epv_c16, epv_tree] at hdet'
+  revert hdet'
+  epv_eos_ifs
+  intro hdet'
+  simp only [epv_leaf] at hdet'
+  epv_eos_gen_ne hdet'
+  -- the guards of all entries of `F_prime_inv` and `F_prime` are decided once, at matrix level
+  simp only [EnergyS2.Jinv, EnergyS2.J, epv_c16]
+  simp only [epv_tree]
+  epv_eos_ifs
   ext i j
   fin_cases i <;> fin_cases j <;>
-    simp only [EnergyS2.Jinv, EnergyS2.J, epv_c16, epv_tree, epv_cond, epv_leaf, hρ, hd, hdet, k0, k1, k2, k3, if_true, if_false, lt_self_iff_false,
-      Matrix.mul_apply, Fin.sum_univ_three, Matrix.one_apply, Fin.reduceEq, Matrix.of_apply, Matrix.cons_val, Fin.zero_eta, Fin.mk_one, Fin.reduceFinMk, Fin.isValue] <;>
-    (try field_simp) <;> (try simp only [← hd]) <;> (try field_simp) <;> (try ring)
+    (simp only [Matrix.mul_apply, Fin.sum_univ_three, Matrix.one_apply, Fin.reduceEq, if_true, if_false, Matrix.of_apply, Matrix.cons_val, Fin.zero_eta, Fin.mk_one, Fin.reduceFinMk, Fin.isValue]
+     simp only [epv_leaf]
+     epv_eos_inv_entry)
 
 /-- non-vacuity: the default initial state ρ₀ = 1, u₀ = -1, P₀ = 0 is admissible in every symmetry -/
 example : (⟨1, -1, 0⟩ : NohIC).Admissible 0 ∧ (⟨1, -1, 0⟩ : NohIC).Admissible 1 ∧ (⟨1, -1, 0⟩ : NohIC).Admissible 2 := by
